@@ -454,3 +454,43 @@ def mon_c08(sn, faulty):
         elif r["tmpl"] != s["tmpl"]:
             bad.append("status.updateRevision %s records template %s, the set's template is %s" % (sn.upd, r["tmpl"], s["tmpl"]))
     return bad
+
+
+def mon_c06(sn, faulty):
+    bad = []
+    if not sn.ok:
+        return bad
+    s = sn.set
+    calls = sn.calls
+    for i, c in enumerate(calls):
+        if c["res"] == "persistentvolumeclaims" and c["verb"] != "create":
+            bad.append("claim %s %s: the controller may only create claims" % (c["verb"], c["name"]))
+        if c["res"] == "persistentvolumeclaims" and c["verb"] == "create" and s["selector"] == "ok":
+            if "app=%s" % s["name"] not in (c.get("labels") or []):
+                bad.append("claim %s created without the selector's match labels (%s)" % (c["name"], c.get("labels")))
+        if c["res"] == "pods" and c["verb"] == "create":
+            if c.get("ident") is False and sn.domain_ok:     # (a phase-less cached pod is re-submitted as it is: outside the domain)
+                bad.append("pod %s created without the full identity (name/hostname/subdomain/labels/owner/claim volumes)" % c["name"])
+            parent, o = parse_name(c["name"])
+            want = ["%s-%s-%d" % (t, s["name"], o) for t in s["claims"]]
+            cached = set(sn.sc["cache"]["claims"])
+            # every claim of that pod that is not in the claim cache must have been created (or attempted) before, without error
+            before = {x["name"]: x for x in calls[:i] if x["res"] == "persistentvolumeclaims" and x["verb"] == "create"}
+            for w in want:
+                if w not in cached:
+                    x = before.get(w)
+                    if x is None:
+                        bad.append("pod %s created before its claim %s was created" % (c["name"], w))
+                    elif x.get("err"):
+                        bad.append("pod %s created although the creation of claim %s failed (%s)" % (c["name"], w, x["err"]))
+        if c["res"] == "pods" and c["verb"] == "update" and c.get("ident") is False and not c.get("err"):
+            bad.append("pod %s updated to a state that still lacks identity / claim volumes" % c["name"])
+    # a failed claim creation is reported
+    if any(c["res"] == "persistentvolumeclaims" and c.get("err") for c in calls) and sn.obs["result"] == "ok":
+        bad.append("a claim creation failed but the reconcile reported success")
+    # claims never disappear
+    if getattr(sn, "final", None) is not None:
+        missing = set(sn.sc["api"]["claims"]) - set(sn.final["claims"] or [])
+        if missing:
+            bad.append("claims %s disappeared during the reconcile" % sorted(missing))
+    return bad
